@@ -196,11 +196,11 @@ func TestWorker(t *testing.T) {
 				reported[f.Key] = true
 				res.Violations = append(res.Violations, minimise(t, sc, cfg, seed, runSeed, r, f, known))
 			}
-			if len(reported) >= 4 {
+			if len(reported) >= 2 {
 				break
 			}
 		}
-		if len(reported) >= 4 {
+		if len(reported) >= 2 {
 			break
 		}
 	}
@@ -222,7 +222,7 @@ func minimise(t *testing.T, sc *scen.Scenario, cfg core.Config, seed, runSeed ui
 	}
 	tape, runs := orig, 0
 	if try(orig) {
-		tape, runs = core.Minimise(orig, try, 1500, 45*time.Second)
+		tape, runs = core.Minimise(orig, try, 1500, 20*time.Second)
 	}
 	// final run for trace / signature / detail
 	rr := execute(t, sc, cfg, core.NewReplayChooser(tape), known)
